@@ -11,7 +11,7 @@ def main(pid: str, path: str) -> int:
     v = json.load(open(path))
     if 'spec' in v and v.get('call') is not None:
         spec = v['spec']
-        fields = {k: spec[k] for k in ('id', 'module', 'func', 'params', 'pre', 'post', 'raises')}
+        fields = {k: spec[k] for k in ('id', 'module', 'func', 'params', 'pre', 'post', 'raises', 'args') if k in spec}
         ob = Ob(**fields)
         with tempfile.TemporaryDirectory(prefix='verif_replay_') as d:
             rp = xhair.replay_native(ob, v['call'], d)
